@@ -9,8 +9,12 @@ OUT="/verif/seeded/$NAME"; mkdir -p "$OUT"
 export CARGO_NET_OFFLINE=true CARGO_TARGET_DIR="$WT/target"
 unset RUSTFLAGS 2>/dev/null || true
 cd "$WT" || exit 2
-git diff -- . ':(exclude)_out' ':(exclude)crates/sas-lexer/tests/demo.rs' > "$OUT/patch.diff"
-[ -s "$OUT/patch.diff" ] || { echo "empty patch"; exit 2; }
+# the agent's own patch file is the source of truth (worktrees of concurrent agents once swapped changes via git stash)
+[ -s _out/patch.diff ] || { echo "no _out/patch.diff"; exit 2; }
+cp _out/patch.diff "$OUT/patch.diff"
+rm -f crates/sas-lexer/tests/demo.rs
+git checkout -- . || exit 2
+git apply "$OUT/patch.diff" || { echo "agent patch does not apply to a clean worktree"; exit 2; }
 cp _out/README.md "$OUT/README.md" 2>/dev/null
 for f in _out/demo.rs _out/demo.py _out/demo_*.rs _out/*.py _out/*.sh; do [ -f "$f" ] && cp "$f" "$OUT/"; done
 echo "== 1. test suite with the change"
